@@ -190,7 +190,7 @@ m_setattr.always = True
 @model(builtins.hasattr)
 def m_hasattr(interp, obj, name):
     try:
-        interp.getattr(obj, name)
+        m_getattr(interp, obj, name)
         return True
     except AttributeError:
         return False
